@@ -301,6 +301,7 @@ class RecInfo:
         self.coq, self.qual, self.node = coq, qual, node
         self.fields = []         # [(name, Ty, declid)]
         self.has_ptr = False
+        self.atomic = set()      # decl ids of atomic<integral> members (modelled as plain fields)
 
     def ctor(self):
         return "mk_" + self.coq
@@ -382,7 +383,13 @@ class Unit:
             for c in ri.node.get("inner", []):
                 if c.get("kind") == "FieldDecl":
                     t = self.ty(c)
-                    if t.kind == "int" or t.kind == "bool":
+                    raw = strip_cv(c["type"].get("desugaredQualType", c["type"]["qualType"]))
+                    am = re.match(r"^(?:std::)?(?:__\d+::)?atomic<(.+)>$", raw)
+                    if am and self.ty_of_str(am.group(1)).kind in ("int", "bool"):
+                        # atomic<integral> member: read/written as a plain field (single-threaded arithmetic only)
+                        ri.fields.append((c["name"], self.ty_of_str(am.group(1)), c["id"]))
+                        ri.atomic.add(c["id"])
+                    elif t.kind == "int" or t.kind == "bool":
                         ri.fields.append((c["name"], t, c["id"]))
                     elif t.kind == "ptr" and t.elem.kind == "int" and t.elem.bits == 8:
                         ri.fields.append((c["name"], t, c["id"]))
@@ -607,6 +614,7 @@ class FnTranslator:
         fi.ret = self.ret_type(n)
         if fi.ret.kind not in ("int", "bool", "void"):
             self.bad(n, "unsupported return type '%s'" % fi.ret.text)
+        self.rty = self.result_type()
         code = self.stmts(body["inner"] if "inner" in body else [], self.k_fall_off)
         # assemble
         hdr_params = []
@@ -618,17 +626,7 @@ class FnTranslator:
             hdr_params.append("(this : %s)" % fi.rec.coq)
         for (nm, t, mode) in fi.params:
             hdr_params.append("(%s : %s)" % (nm, "bool" if t.kind == "bool" else "Z"))
-        comps = []
-        for cpt in fi.result_components():
-            if cpt == "ret":
-                comps.append("bool" if fi.ret.kind == "bool" else "Z")
-            elif cpt == "this":
-                comps.append(fi.rec.coq)
-            else:
-                nm = cpt.split(":")[1]
-                t = [t for (pn, t, mode) in fi.params if pn == nm][0]
-                comps.append("bool" if t.kind == "bool" else "Z")
-        rty = " * ".join(comps) if comps else "unit"
+        rty = self.rty
         out = []
         out.append("(* %s  ::  %s" % (fi.qual, fi.sig))
         out.append("   %s   sha256 %s *)" % (fi.src, fi.sha))
@@ -644,6 +642,25 @@ class FnTranslator:
             out.append("  " + l)
         out[-1] = out[-1] + "."
         fi.text = "\n".join(out)
+
+    def result_type(self):
+        fi = self.fi
+        comps = []
+        for cpt in fi.result_components():
+            if cpt == "ret":
+                comps.append("bool" if fi.ret.kind == "bool" else "Z")
+            elif cpt == "this":
+                comps.append(fi.rec.coq)
+            else:
+                nm = cpt.split(":")[1]
+                t = [t for (pn, t, mode) in fi.params if pn == nm][0]
+                comps.append("bool" if t.kind == "bool" else "Z")
+        return " * ".join(comps) if comps else "unit"
+
+    def has_return(self, n):
+        if n.get("kind") == "ReturnStmt":
+            return True
+        return any(self.has_return(c) for c in n.get("inner", []))
 
     def ret_type(self, n):
         t = n["type"]
@@ -686,6 +703,12 @@ class FnTranslator:
         return "(%s %s)" % (ri.ctor(), " ".join(self.vars[did].name for (f, t, did) in ri.fields if t is not None))
 
     def result(self, retval):
+        r = self.result_tuple(retval)
+        if self.loop_ctx:                     # inside a loop: early exit of the enclosing function
+            return "Some (Lret %s)" % paren(r)
+        return "Some %s" % paren(r)
+
+    def result_tuple(self, retval):
         comps = []
         for cpt in self.fi.result_components():
             if cpt == "ret":
@@ -695,10 +718,10 @@ class FnTranslator:
             else:
                 comps.append(cpt.split(":")[1])
         if not comps:
-            return "Some tt"
+            return "tt"
         if len(comps) == 1:
-            return "Some " + paren(comps[0])
-        return "Some (%s)" % ", ".join(comps)
+            return comps[0]
+        return "(%s)" % ", ".join(comps)
 
     def k_fall_off(self):
         if self.fi.ret.kind == "void":
@@ -706,6 +729,17 @@ class FnTranslator:
         return ["None (* control reaches the end of a non-void function *)"]
 
     # ---- analysis ----------------------------------------------------------------------------
+
+    def atomic_field(self, obj):
+        """decl id if obj is `this->f` with f an atomic<integral> member of the record, else None."""
+        if obj.get("kind") == "MemberExpr" and self.fi.rec is not None:
+            base = obj["inner"][0]
+            while base.get("kind") in ("ImplicitCastExpr", "ParenExpr"):
+                base = base["inner"][0]
+            did = obj.get("referencedMemberDecl")
+            if base.get("kind") == "CXXThisExpr" and did in self.fi.rec.atomic and did in self.vars:
+                return did
+        return None
 
     def lvalue_var(self, e):
         """decl id of the variable an lvalue expression denotes, or None."""
@@ -748,6 +782,13 @@ class FnTranslator:
             did = self.lvalue_var(n["inner"][0])
             if did is not None:
                 acc.add(did)
+        if k == "CXXMemberCallExpr" and n["inner"][0].get("kind") == "MemberExpr" and n["inner"][0].get("name") == "store":
+            o = n["inner"][0]["inner"][0]
+            while o.get("kind") in ("ImplicitCastExpr", "ParenExpr"):
+                o = o["inner"][0]
+            ad = self.atomic_field(o)
+            if ad is not None:
+                acc.add(ad)
         if k == "CXXMemberCallExpr":
             me = n["inner"][0]
             callee = self.u.idx.by_id.get(me.get("referencedMemberDecl"))
@@ -841,8 +882,6 @@ class FnTranslator:
                 out += self.decl(d)
             return out + k()
         if kd == "ReturnStmt":
-            if self.loop_ctx:
-                self.bad(s, "`return` inside a loop is not supported")
             if not s.get("inner"):
                 return [self.result(None)]
             e = s["inner"][0]
@@ -1445,6 +1484,15 @@ class FnTranslator:
             obj = head["inner"][0]
             while obj.get("kind") in ("ImplicitCastExpr", "ParenExpr"):
                 obj = obj["inner"][0]
+            adid = self.atomic_field(obj)
+            if adid is not None:
+                mname = head.get("name", "")
+                if mname == "load" or mname.startswith("operator "):       # x.load(mo) / implicit conversion
+                    return self.read_var(adid, e)
+                if mname == "store" and stmt and args:
+                    self.assign(adid, self.ex(args[0]), e)
+                    return "tt"
+                self.bad(e, "unsupported operation '%s' on an atomic member (only load/store/conversion)" % mname)
             if obj.get("kind") != "CXXThisExpr":
                 self.bad(e, "method call on an object other than `this`")
             declid = head.get("referencedMemberDecl")
@@ -1603,8 +1651,10 @@ class FnTranslator:
         # the loop function is compiled with a placeholder for `mem`; whether it is needed is known afterwards
         MEMPH = "\0MEM\0"
 
+        returning = any(self.has_return(p) for p in parts)
+
         def k_break():
-            return ["Some %s" % tup]
+            return ["Some (Lnorm %s)" % tup] if returning else ["Some %s" % tup]
 
         def recurse():
             return ["%s fuel%s %s" % (lname, MEMPH, " ".join(self.vars[d].name for d in inv + state))]
@@ -1643,18 +1693,29 @@ class FnTranslator:
         memarg = " mem" if loop_mem else ""
         params = "".join(" (%s : %s)" % (self.vars[d].name, "bool" if self.vars[d].ty.kind == "bool" else "Z") for d in inv + state)
         stys = " * ".join("bool" if self.vars[d].ty.kind == "bool" else "Z" for d in state) or "unit"
+        if returning:
+            stys = "lres (%s) (%s)" % (stys, self.rty)
         fx = ["Fixpoint %s (fuel : nat)%s%s : option (%s) :=" % (lname, " (mem : list Z)" if loop_mem else "", params, stys),
               "  match fuel with", "  | O => None", "  | S fuel =>"]
         fx += ["    " + l.replace(MEMPH, memarg) for l in lines]
         fx.append("  end.")
         self.loops.append("\n".join(fx))
         pat = "_" if not snames else (snames[0] if len(snames) == 1 else "'(%s)" % ", ".join(snames))
-        out.append("%s <- %s fuel%s %s ;;" % (pat, lname, memarg, " ".join(self.vars[d].name for d in inv + state)))
-
-        def kk():
-            r = k()
-            return r
-        return out + kk()
+        callt = "%s fuel%s %s" % (lname, memarg, " ".join(self.vars[d].name for d in inv + state))
+        if not returning:
+            out.append("%s <- %s ;;" % (pat, callt))
+            return out + k()
+        lr = self.temp()
+        rv = self.temp()
+        out.append("%s <- %s ;;" % (lr, callt))
+        out.append("match %s with" % lr)
+        # an early `return` of the loop leaves the function (or propagates through an enclosing loop)
+        out.append("| Lret %s => %s" % (rv, "Some (Lret %s)" % rv if self.loop_ctx else "Some %s" % rv))
+        npat = "_" if not snames else (snames[0] if len(snames) == 1 else "(%s)" % ", ".join(snames))
+        out.append("| Lnorm %s =>" % npat)
+        out += ["  " + l for l in k()]
+        out.append("end")
+        return out
 
 
 # --------------------------------------------------------------------------------------------------
